@@ -260,10 +260,15 @@ func (nopConn) SetDeadline(time.Time) error      { return nil }
 func (nopConn) SetReadDeadline(time.Time) error  { return nil }
 func (nopConn) SetWriteDeadline(time.Time) error { return nil }
 
-func dd10(c *ctx, urlstr string) {
+func dd10(c *ctx, urlstr string) { dd10h(c, urlstr, "") }
+
+// dd10h: the same with Dialer.Host set: the override goes into the Host header only, the connection is still
+// made to the URL's host and port (kind DD10H, judged as DD10)
+func dd10h(c *ctx, urlstr, hostOverride string) {
 	var network, addr, tlsHost string
 	dials, tlsCalls := 0, 0
 	d := ws.Dialer{
+		Host: hostOverride,
 		NetDial: func(ctx context.Context, n, a string) (net.Conn, error) {
 			dials++
 			network, addr = n, a
@@ -290,6 +295,10 @@ func dd10(c *ctx, urlstr string) {
 		_, _, _, err = d.Dial(context.Background(), urlstr)
 	}()
 	_ = err
+	if hostOverride != "" {
+		c.emit("DD10H %s %s -> %d %s %s %d %s %s %d %s", hx([]byte(urlstr)), hx([]byte(hostOverride)), b2i(perr == nil), scheme, host, dials, hx([]byte(network)), hx([]byte(addr)), tlsCalls, hx([]byte(tlsHost)))
+		return
+	}
 	c.emit("DD10 %s -> %d %s %s %d %s %s %d %s", hx([]byte(urlstr)), b2i(perr == nil), scheme, host, dials, hx([]byte(network)), hx([]byte(addr)), tlsCalls, hx([]byte(tlsHost)))
 }
 
@@ -343,6 +352,7 @@ func init() {
 		d10(c, rbuf, wbuf, in[2], string(unhx(in[3])), unhx(in[4]), decInts(in[5]), decDcfg(in[6:11]))
 	}
 	replayers["DD10"] = func(c *ctx, in []string) { dd10(c, string(unhx(in[0]))) }
+	replayers["DD10H"] = func(c *ctx, in []string) { dd10h(c, string(unhx(in[0])), string(unhx(in[1]))) }
 	replayers["NON"] = func(c *ctx, in []string) { n, _ := strconv.Atoi(in[0]); nonCase(c, n) }
 	replayers["HP"] = func(c *ctx, in []string) { hp(c, string(unhx(in[0])), string(unhx(in[1]))) }
 	replayers["MX"] = func(c *ctx, in []string) { mx(c, unhx(in[0]), decOpts(in[1]), decOpts(in[2])) }
